@@ -55,6 +55,7 @@ type input struct {
 	Events []hookEvent `json:"events"`
 	Ticks  bool        `json:"ticks"`
 	Black  *blackIn    `json:"black,omitempty"`
+	Strf   *strfIn     `json:"strf,omitempty"`
 }
 
 // the few strftime conversions the generator uses (UTC), to place colliding files
